@@ -653,7 +653,8 @@ static cfg_opt_t *cfg_addopt(cfg_t *cfg, char *key)
 	cfg->opts[num].type = CFGT_STR;
 
 	if (!cfg->opts[num].name) {
-		free(opts);
+		/* the grown array stays with the context; restore the end marker */
+		cfg->opts[num].type = CFGT_NONE;
 		return NULL;
 	}
 
